@@ -184,3 +184,268 @@ def bounded_sequences(pid, tier, seed):
             "sequences of 8 over 3 names: %d steps, each followed by getfilter/filter_exists/is_filter_disabled probes and a "
             "rendering check" % (count, depth, evals), "rule": "distinct = operation sequence", "evaluations": evals, "distinct": count,
             "samples": samples, "exhaustive": True, "violations": findings.violations(pid, "sequences", (pid,))}
+
+
+# ----------------------------------------------------------------------------- definitions grammar (C06 / C11 / C19)
+
+BENIGN = "v"
+HOSTILE = ["plain", "with space", "café", 'quo"te', "back\\slash", "a,b", "[brackets]", "semi;colon", "line\nbreak", "{brace}",
+           "#hash", "end\\", ' "', "x\"]; stop; #"]
+
+
+def condition_forms(v, v2=None):
+    """(kind, condition tuple) for every documented condition kind with value v (a string) in the value position(s)"""
+    v2 = v2 if v2 is not None else v
+    out = []
+    for mt in (":is", ":contains", ":matches", ":notis", ":notcontains", ":notmatches"):
+        out.append(("header" + mt, ("Subject", mt, v)))
+    out.append(("header-name", (v, ":is", "x")))
+    out.append(("exists", ("exists", v)))
+    out.append(("exists-many", ("exists", v, "X-Other")))
+    out.append(("notexists", ("notexists", v)))
+    out.append(("size", ("size", ":over", "100K")))
+    out.append(("envelope", ("envelope", ":is", ["from"], [v])))
+    out.append(("envelope-list", ("envelope", ":contains", ["from", "to"], [v, v2])))
+    out.append(("address", ("address", ":is", "from", v)))
+    out.append(("address-list", ("address", ":contains", ["from", "to"], [v, v2])))
+    out.append(("body", ("body", ":raw", ":contains", v)))
+    out.append(("body-not", ("body", ":text", ":notcontains", v)))
+    out.append(("currentdate", ("currentdate", ":zone", "+0100", ":is", "date", v)))
+    out.append(("currentdate-value", ("currentdate", ":zone", "+0100", ":value", "gt", "date", v)))
+    out.append(("true", ("true",)))
+    out.append(("false", ("false",)))
+    return out
+
+
+def action_forms(v):
+    out = [("fileinto", ("fileinto", v)), ("fileinto-copy", ("fileinto", ":copy", v)), ("fileinto-create", ("fileinto", ":create", v)),
+           ("fileinto-flags", ("fileinto", ":flags", [v, "\\Seen"], "F")), ("redirect", ("redirect", v)),
+           ("redirect-copy", ("redirect", ":copy", v)), ("reject", ("reject", v)), ("keep", ("keep",)), ("discard", ("discard",)),
+           ("stop", ("stop",)), ("setflag", ("setflag", v)), ("addflag", ("addflag", v)), ("removeflag", ("removeflag", v)),
+           ("vacation", ("vacation", v)), ("vacation-subject", ("vacation", ":subject", v, "reason")),
+           ("vacation-days", ("vacation", ":days", 7, v)), ("vacation-seconds", ("vacation", ":seconds", 600, v)),
+           ("vacation-from", ("vacation", ":from", v, "reason")), ("vacation-addresses", ("vacation", ":addresses", [v, "b@example.org"], "reason")),
+           ("vacation-handle", ("vacation", ":handle", v, "reason")), ("vacation-mime", ("vacation", ":mime", v)),
+           ("keep-flags", ("keep", ":flags", [v]))]
+    return out
+
+
+def build_set(cond, act, matchtype="anyof"):
+    from sievelib.factory import FiltersSet
+    fs = FiltersSet("t")
+    fs.addfilter("rule", [cond], [act], matchtype)
+    return fs
+
+
+def token_kinds(text):
+    from bounded import sieve_ref as ref
+    try:
+        return [t.kind if t.kind not in ("identifier", "tag") else t.text.decode().lower() for t in ref.lex(text.encode("utf-8"))]
+    except ref.LexError:
+        return None
+
+
+def bounded_generated_sets(pid, tier, seed):
+    """C06.S: every condition kind / action kind x value pool: the rendered script is accepted by the parser, valid for the
+    strict reference validator (all required arguments, every used extension required), and its token structure is the
+    same as with a benign value (user values stay inside string literals)"""
+    from bounded import sieve_ref as ref
+    from bounded.parser_bounded import Findings, real_parse
+    evals = 0
+    distinct = set()
+    findings = Findings()
+    samples = []
+    values = HOSTILE if tier == "thorough" else HOSTILE[:14]
+    for kind_is_cond in (True, False):
+        forms_b = condition_forms(BENIGN) if kind_is_cond else action_forms(BENIGN)
+        for fi, (kind, benign_form) in enumerate(forms_b):
+            base = None
+            for v in [BENIGN] + values:
+                if v.startswith(('"', "'")):
+                    continue  # taken by the factory as already quoted: outside the claim
+                form = (condition_forms(v) if kind_is_cond else action_forms(v))[fi][1]
+                vclass = "benign" if v == BENIGN else _vclass(v)
+                evals += 1
+                distinct.add((kind, v))
+                try:
+                    fs = build_set(form, ("keep",)) if kind_is_cond else build_set(("Subject", ":is", "x"), form)
+                    text = str(fs)
+                except Exception as e:
+                    findings.note((pid, "build-raises.%s.%s" % (kind, vclass)), repr(form), "%s: %s" % (type(e).__name__, e))
+                    continue
+                r = real_parse(text)
+                if r["verdict"] is not True:
+                    findings.note((pid, "own-output-rejected.%s.%s" % (kind, vclass)), repr(form), "%s ; script: %r" % (r.get("error") or r.get("exc"), text[-90:]))
+                    continue
+                v2 = ref.verdict(text)
+                if v2.status != "valid":
+                    findings.note((pid, "not-strictly-valid.%s.%s" % (kind, vclass)), repr(form),
+                                  "%s%s ; script: %r" % (v2.reason, " (%s)" % v2.missing_ext if v2.missing_ext else "", text[-110:]))
+                    continue
+                kinds = token_kinds(text)
+                if v == BENIGN:
+                    base = kinds
+                elif base is not None and kinds != base:
+                    findings.note((pid, "value-changes-structure.%s.%s" % (kind, vclass)), repr(form), "token structure differs from the benign rendering: %r" % text[-110:])
+                elif len(samples) < 3 and v != BENIGN:
+                    samples.append({"definition": repr(form), "script_tail": text[-70:], "verdict": "accepted, strictly valid, same structure as with a benign value"})
+    return {"name": "generated-sets", "bound": "%d condition kinds + %d action kinds x %d values (quotes, backslashes, commas, brackets, "
+            "newlines, non-ASCII, injection attempt): %d sets" % (len(condition_forms("v")), len(action_forms("v")), len(values) + 1, evals),
+            "rule": "distinct = (kind, value)", "evaluations": evals, "distinct": len(distinct), "samples": samples, "exhaustive": True,
+            "violations": findings.violations(pid, "sets", (pid,))}
+
+
+def _vclass(v):
+    if '"' in v:
+        return "quote"
+    if "\\" in v:
+        return "backslash"
+    if "," in v:
+        return "comma"
+    if "\n" in v:
+        return "newline"
+    if any(ord(c) > 127 for c in v):
+        return "non-ascii"
+    return "other"
+
+
+def bounded_readback(pid, tier, seed):
+    """C19: what you put into a filter is what you read back (original set, reloaded set, disabled filter)"""
+    from sievelib.factory import FiltersSet
+    from sievelib.parser import Parser
+    from bounded.parser_bounded import Findings
+    evals = 0
+    distinct = set()
+    findings = Findings()
+    samples = []
+    values = ["plain", "with space", "café", "a,b", "[brackets]", "x y,z"]
+    for v in values:
+        vclass = _vclass(v)
+        conds = [c for c in condition_forms(v) if c[0] not in ("header-name",)]
+        acts = [a for a in action_forms(v) if a[0] in ("fileinto", "fileinto-copy", "fileinto-create", "redirect", "redirect-copy", "reject",
+                                                         "keep", "discard", "stop", "vacation", "vacation-mime")]
+        for (ck, cond) in conds:
+            for (ak, act) in acts[:4] if tier == "quick" else acts:
+                for mt in ("anyof", "allof"):
+                    for mode in ("original", "disabled", "reloaded"):
+                        evals += 1
+                        distinct.add((ck, ak, v, mt, mode))
+                        try:
+                            fs = FiltersSet("t")
+                            fs.addfilter("rule", [cond, ("Subject", ":is", "second")], [act], mt)
+                            if mode == "disabled":
+                                fs.disablefilter("rule")
+                            if mode == "reloaded":
+                                p = Parser()
+                                if not p.parse(str(fs)):
+                                    continue  # C06's business
+                                fs = FiltersSet("t2")
+                                fs.from_parser_result(p)
+                            gc = fs.get_filter_conditions("rule")
+                            ga = fs.get_filter_actions("rule")
+                            gm = fs.get_filter_matchtype("rule")
+                        except Exception as e:
+                            findings.note((pid, "raises.%s.%s.%s" % (ck, vclass, mode)), repr((cond, act)), "%s: %s" % (type(e).__name__, e))
+                            continue
+                        want_c = [_norm(cond), ("Subject", ":is", "second")]
+                        if [_norm(x) for x in (gc or [])] != want_c:
+                            findings.note((pid, "conditions.%s.%s" % (ck, vclass)), repr(cond), "read back %r (%s)" % (gc, mode))
+                        elif [tuple(x) for x in (ga or [])] != [tuple(act)]:
+                            findings.note((pid, "actions.%s.%s" % (ak, vclass)), repr(act), "read back %r (%s)" % (ga, mode))
+                        elif gm != mt:
+                            findings.note((pid, "matchtype"), mt, "read back %r (%s)" % (gm, mode))
+                        elif len(samples) < 3 and mode == "reloaded" and vclass != "other":
+                            samples.append({"condition": repr(cond), "action": repr(act), "mode": mode, "verdict": "read back unchanged"})
+    return {"name": "read-back", "bound": "%d condition forms x actions x %d values x {anyof, allof} x {original, disabled, reloaded}: %d cases"
+            % (len(condition_forms("v")) - 1, len(values), evals), "rule": "distinct = (condition kind, action kind, value, match type, mode)",
+            "evaluations": evals, "distinct": len(distinct), "samples": samples, "exhaustive": True,
+            "violations": findings.violations(pid, "readback", (pid,))}
+
+
+def _norm(t):
+    return tuple(tuple(x) if isinstance(x, list) else x for x in t)
+
+
+def bounded_saveload(pid, tier, seed):
+    """C11: render -> parse -> from_parser_result -> same names/order/status/descriptions/requires; re-render is a fixed point"""
+    from sievelib.factory import FiltersSet
+    from sievelib.parser import Parser
+    from bounded.parser_bounded import Findings
+    rng = random.Random(seed or 1)
+    evals = 0
+    findings = Findings()
+    samples = []
+    names = ["a", "b b", "café", "n#3", "Filter", "x: y"]
+    descs = [None, "", "a description", "déjà vu", "with # hash", "colon: inside"]
+    markers = [("# Filter: ", "# Description: "), ("# rule:", "# desc:"), ("#N=", "#D=")]
+    conds = [c for k, c in condition_forms("v") if k not in ("header-name",)]
+    acts = [a for k, a in action_forms("v") if k not in ("keep-flags", "fileinto-flags", "vacation-seconds")]
+    n_seq = 150 if tier == "quick" else 1500
+    for si in range(n_seq):
+        mk = markers[si % len(markers)]
+        fs = FiltersSet("t", mk[0], mk[1])
+        used = []
+        for step_i in range(rng.randint(1, 5)):
+            op = rng.choice(["add", "add", "add", "update", "disable", "enable", "move", "remove", "replace"])
+            nm = rng.choice(names)
+            try:
+                if op == "add":
+                    fs.addfilter(nm, [rng.choice(conds)], [rng.choice(acts)], rng.choice(["anyof", "allof"]))
+                    d = rng.choice(descs)
+                    if d is not None:
+                        fs.filters[-1]["description"] = d
+                elif op == "update":
+                    fs.updatefilter(nm, rng.choice(names), [rng.choice(conds)], [rng.choice(acts)])
+                elif op == "disable":
+                    fs.disablefilter(nm)
+                elif op == "enable":
+                    fs.enablefilter(nm)
+                elif op == "move":
+                    fs.movefilter(nm, rng.choice(["up", "down"]))
+                elif op == "remove":
+                    fs.removefilter(nm)
+                elif op == "replace":
+                    # documented use: a filter object obtained from the same set
+                    fs.addfilter("__tmp__", [rng.choice(conds)], [rng.choice(acts)])
+                    obj = fs.getfilter("__tmp__")
+                    fs.removefilter("__tmp__")
+                    fs.replacefilter(nm, obj, None, rng.choice(descs))
+            except Exception:
+                pass
+        if not fs.filters:
+            continue
+        evals += 1
+        text = str(fs)
+        p = Parser()
+        if not p.parse(text):
+            findings.note((pid, "own-output-rejected"), text[-120:], p.error)
+            continue
+        fs2 = FiltersSet("t2", mk[0], mk[1])
+        try:
+            fs2.from_parser_result(p)
+        except Exception as e:
+            findings.note((pid, "load-raises"), text[-120:], "%s: %s" % (type(e).__name__, e))
+            continue
+        a = [(f["name"], f["enabled"], f.get("description") or "") for f in fs.filters]
+        b = [(f["name"], f["enabled"], f.get("description") or "") for f in fs2.filters]
+        if a != b:
+            k = next((i for i in range(min(len(a), len(b))) if a[i] != b[i]), min(len(a), len(b)))
+            what = "count" if len(a) != len(b) else ("name" if a[k][0] != b[k][0] else ("enabled" if a[k][1] != b[k][1] else "description"))
+            findings.note((pid, "reloaded-differs." + what), text[-160:], "saved %r, loaded %r" % (a[k] if k < len(a) else None, b[k] if k < len(b) else None))
+            continue
+        if sorted(fs.requires) != sorted(fs2.requires) and set(fs2.requires) - set(fs.requires):
+            findings.note((pid, "requires-differ"), text[-120:], "saved %r, loaded %r" % (fs.requires, fs2.requires))
+            continue
+        text2 = str(fs2)
+        fs3 = FiltersSet("t3", mk[0], mk[1])
+        p3 = Parser()
+        if p3.parse(text2):
+            fs3.from_parser_result(p3)
+        if str(fs3) != text2:
+            findings.note((pid, "not-a-fixed-point"), text2[-120:], "third rendering differs")
+        elif len(samples) < 2:
+            samples.append({"names": [x[0] for x in a], "markers": list(mk), "verdict": "reloaded set equal; rendering is a fixed point"})
+    return {"name": "save-load", "bound": "%d seeded operation sequences (1-5 operations over %d names incl. non-ASCII and marker look-alikes, "
+            "%d descriptions, 3 marker-prefix pairs): %d non-empty sets saved and reloaded" % (n_seq, len(names), len(descs), evals),
+            "rule": "distinct = operation sequence", "evaluations": evals, "distinct": evals, "samples": samples, "exhaustive": False,
+            "violations": findings.violations(pid, "saveload", (pid,))}
